@@ -130,8 +130,64 @@ static void run_dec(dec_spec *spec, const uint8_t *in, size_t n, const slice_pla
 
 static uint64_t simple_visits(void) { uint64_t t = 0; for (int v = 0; v < VERIF_VALUES; ++v) t += lzma_verif_visit_counts[VERIF_D_SIMPLE][v]; return t; }
 
+// Threshold case: the smallest memlimit_threading at which the first Block is decoded by a worker thread is found by
+// bisection (observed through the hook counters), and the decoder is then run with that value, one below and one
+// above: at the very limit where threaded mode becomes possible it must still be possible.
+static void c07_threshold_case(uint64_t idx)
+{
+	vrng r; vrng_init(&r, A.seed, 0xC07A, idx, 0);
+	hx_case_begin(idx);
+	gstream g; gen_xz_multi(&r, &g, 1, 2 + vrng_below(&r, 3), 40000, true, false);
+	dec_spec st; dec_spec_for(&st, D_STREAM, NULL);
+	slice_plan whole = { .mode = SL_WHOLE, .final_action = LZMA_FINISH };
+	mres S; run_dec(&st, g.data.p, g.data.n, &whole, &r, -1, &S);
+	if (S.ret != LZMA_STREAM_END) { vbuf_free(&S.out); gstream_free(&g); return; }
+	dec_spec mt; dec_spec_for(&mt, D_STREAM_MT, NULL); mt.threads = 2 + vrng_below(&r, 3); mt.timeout = vrng_chance(&r, 1, 2) ? 0 : 20;
+	uint64_t lo = 1, hi = UINT64_C(1) << 28;   // invariant: lo -> direct mode, hi -> threaded
+	bool ok = true;
+	for (int step = 0; step < 40 && hi - lo > 1; ++step) {
+		uint64_t mid = lo + (hi - lo) / 2;
+		mt.memlimit_threading = mid;
+		uint64_t t0 = mtd(VERIF_MTD_THREAD_START) + mtd(VERIF_MTD_WORKER_REUSE);
+		mres M; run_dec(&mt, g.data.p, g.data.n, &whole, &r, -1, &M);
+		bool threaded = mtd(VERIF_MTD_THREAD_START) + mtd(VERIF_MTD_WORKER_REUSE) > t0;
+		if (M.ret != S.ret || M.out.n != S.out.n) {
+			hx_violation("C07", "mt-status-differs|threading-limit-sweep", idx, "memlimit_threading=%" PRIu64 ": threaded decoder ends with %s (%zu bytes), single-threaded with %s (%zu bytes); %s threads=%u timeout=%u",
+					mid, lzma_ret_name(M.ret), M.out.n, lzma_ret_name(S.ret), S.out.n, g.desc, mt.threads, mt.timeout);
+			ok = false;
+		}
+		vbuf_free(&M.out);
+		hx_eval();
+		if (!ok) break;
+		if (threaded) hi = mid; else lo = mid;
+	}
+	if (ok) {
+		for (int d = -1; d <= 2 && ok; ++d) {
+			mt.memlimit_threading = hi + (uint64_t)(int64_t)d;
+			sched_case_begin(A.seed * 1000003u + idx + (uint64_t)(d + 1));
+			slice_plan plan; slice_plan_random(&r, &plan); if (plan.mode == SL_ONEBYTE || plan.mode == SL_ONEOUT || plan.mode == SL_ONEIN) plan.mode = SL_RANDOM;
+			if (plan.max_in < 64) plan.max_in = 700; if (plan.max_out < 64) plan.max_out = 700;
+			plan.final_action = LZMA_FINISH;
+			mres M; run_dec(&mt, g.data.p, g.data.n, &plan, &r, -1, &M);
+			sched_case_end();
+			hx_eval();
+			if (!M.aborted && (M.ret != S.ret || M.out.n != S.out.n || (S.out.n && memcmp(M.out.p, S.out.p, S.out.n)))) {
+				hx_violation("C07", "mt-status-differs|at-threading-threshold", idx, "memlimit_threading=%" PRIu64 " (threaded mode becomes possible at %" PRIu64 "): threaded decoder ends with %s (%zu bytes), single-threaded with %s (%zu bytes); %s threads=%u timeout=%u",
+						mt.memlimit_threading, hi, lzma_ret_name(M.ret), M.out.n, lzma_ret_name(S.ret), S.out.n, g.desc, mt.threads, mt.timeout);
+				ok = false;
+			}
+			vbuf_free(&M.out);
+		}
+		hx_count("threading_threshold_cases", 1);
+	}
+	hx_sample("c07 threshold %s threads=%u: threaded mode from memlimit_threading=%" PRIu64, g.desc, mt.threads, hi);
+	hx_distinct(vhash(g.data.p, g.data.n, vhash(&idx, 8, VHASH_INIT)), true);
+	vbuf_free(&S.out); gstream_free(&g);
+}
+
 static void c07_case(uint64_t idx)
 {
+	if (idx % 50 == 7) { c07_threshold_case(idx); return; }
 	vrng r; vrng_init(&r, A.seed, 0xC07, idx, 0);
 	hx_case_begin(idx);
 	// ---- input file ----
@@ -160,6 +216,12 @@ static void c07_case(uint64_t idx)
 		if (gen_corpus(&r, &g, corpus, ncorpus) && g.sub == SK_XZ) { g_valid = true; vbuf_append(&data, g.data.p, g.data.n); snprintf(desc, sizeof(desc), "%s", g.desc); }
 		else { if (g.data.p) gstream_free(&g); gen_xz_multi(&r, &g, 1, 5, 30000, true, false); g_valid = true; vbuf_append(&data, g.data.p, g.data.n); snprintf(desc, sizeof(desc), "%s", g.desc); }
 	}
+	if (vrng_chance(&r, 1, 8)) {
+		// a Block that is well-formed but refused when its decoder is initialised (misaligned BCJ start offset),
+		// possibly while earlier Blocks are still being decoded
+		int bi = xz_misalign_bcj_offset(&data, &r);
+		if (bi >= 0) { snprintf(md, sizeof(md), "misaligned-bcj-offset@block%d", bi); hx_count("refused_at_block_init_cases", 1); }
+	} else
 	if (vrng_chance(&r, 1, 2)) {
 		mutate(&r, &data, md, sizeof(md));
 		if (vrng_chance(&r, 1, 3)) xz_fix_header_crcs(&data);
